@@ -53,7 +53,7 @@ def tlc_mc(ctx, cfg, timeout, what):
 def stats(ctx, traces):
     """Counts what the batch exercised (also the guard against a vacuous run)."""
     st = dict(cases=0, by_kind={}, by_src={}, with_http=0, two_hops=0, multi_page=0, link_followed=0, last_fallback=0,
-              declined=0, errors=0, huge=0, huge_runs=0, huge_page_over_10000=0, paged_value_run_again=0, sub_with_start=0, unify=0, select=0, debug=0, escaped_start=0, requests=0, consumer_calls=0)
+              declined=0, errors=0, **{'debug_error_after_items:' + k: 0 for k in ('repos', 'tags', 'refs')}, huge=0, huge_runs=0, huge_page_over_10000=0, paged_value_run_again=0, sub_with_start=0, unify=0, select=0, debug=0, escaped_start=0, requests=0, consumer_calls=0)
     samples = []
     for t in traces:
         with open(t) as f:
@@ -93,6 +93,10 @@ def stats(ctx, traces):
                     st['declined'] += 1
                 if e['calls'] and e['calls'][-1]['e'] == 'err':
                     st['errors'] += 1
+                for run in [e] + e['more']:
+                    cs = run['calls']
+                    if 'debug' in stack and len(cs) >= 2 and cs[-1]['e'] == 'err':
+                        st['debug_error_after_items:' + e['kind']] += 1
                 if 'sub' in stack and e['kind'] == 'repos' and e['a'] > 0:
                     st['sub_with_start'] += 1
                 for w in ('unify', 'select', 'debug'):
@@ -114,7 +118,8 @@ def guard(ctx, st):
     """A batch in which the code never did what the property is about proves nothing (only
     meaningful once the batch has been accepted: a defect may be the reason)."""
     need = ('multi_page', 'link_followed', 'last_fallback', 'declined', 'errors', 'sub_with_start', 'unify', 'select', 'two_hops', 'escaped_start',
-            'paged_value_run_again', 'huge', 'huge_page_over_10000')
+            'paged_value_run_again', 'huge', 'huge_page_over_10000',
+            'debug_error_after_items:repos', 'debug_error_after_items:tags', 'debug_error_after_items:refs')
     missing = [k for k in need if not st[k]]
     if missing:
         raise vlib.Machinery('the batch never exercised: %s' % ', '.join(missing))
@@ -220,6 +225,7 @@ def run(ctx):
         'ociunify: sequential read policy; no unifier below a unifier, and for referrers at most one member with HTTP hops (request order of concurrent members is not determined)',
         'Select/Sub for tags and referrers admit/rename the listed repository only (C12/C13 cover the rest)',
         'contents do not change during a listing (C08 covers concurrency)',
+        'sources that fail part-way are harness-made (lFailing: DENIED on reaching an element >= at); what such a source lists at all is the part before that element',
         'universes > 10^4 items: one hop over ocimem only, items t00001.., calls recorded as runs of consecutive ranks (lossless), model = closed form Big (checked equal to Stream by TLC on the small sweep)',
         'TLC + community modules; harness JSON projection'
     ]
